@@ -476,6 +476,12 @@ class ErrorFinder(Normalizer):
             if parent.type in ('classdef', 'funcdef'):
                 self.context = self.context.add_context(parent)
 
+        elif leaf.type == 'fstring_string':
+            # The text of an f-string is never a keyword or an operator, so
+            # the rules that are registered for values don't apply.
+            self._check_type_rules(leaf)
+            return leaf.prefix + leaf.value
+
         # The rest is rule based.
         return super().visit_leaf(leaf)
 
